@@ -165,7 +165,7 @@ func propsAlphabet() []propsLit {
 		{`{a:}`, nil, false},
 		{`{a}`, nil, false},
 		{`{a:1 b:2}`, nil, false},
-		{`{a:1`, nil, false},  // unbalanced
+		{`{a:1`, nil, false},   // unbalanced
 		{`{a:1}}`, nil, false}, // stray brace
 	}
 }
